@@ -1322,8 +1322,12 @@ class Bpsec(AbstractApplication):
         # Report status reason
         failure = []
 
-        confidential_blocks = list(ctr.block_type(BlockConfidentialityBlock))
+        confidential_blocks = list(ctr.block_type(BlockConfidentialityBlock._overload_fields[CanonicalBlock]['type_code']))
         for bcb in confidential_blocks:
+            if not isinstance(bcb.payload, BlockConfidentialityBlock):
+                LOGGER.warning('BCB in %s cannot be decoded', bcb.block_num)
+                failure.append(StatusReport.ReasonCode.FAILED_SEC)
+                continue
             LOGGER.debug('Verifying BCB in %d with context %s, targets %s',
                          bcb.block_num, bcb.payload.context_id, bcb.payload.targets)
 
@@ -1358,8 +1362,12 @@ class Bpsec(AbstractApplication):
         # Report status reason
         failure = []
 
-        integ_blocks = list(ctr.block_type(BlockIntegrityBlock))
+        integ_blocks = list(ctr.block_type(BlockIntegrityBlock._overload_fields[CanonicalBlock]['type_code']))
         for bib in integ_blocks:
+            if not isinstance(bib.payload, BlockIntegrityBlock):
+                LOGGER.warning('BIB in %s cannot be decoded', bib.block_num)
+                failure.append(StatusReport.ReasonCode.FAILED_SEC)
+                continue
             LOGGER.debug('Verifying BIB in %d with context %s, targets %s',
                          bib.block_num, bib.payload.context_id, bib.payload.targets)
 
